@@ -96,6 +96,10 @@ fn main() {
             util::cleanup_scratch();
             if vs.is_empty() { 0 } else { 1 }
         }
+        "kill-child" => {
+            crash::kill_child(&argv[2..]);
+            0
+        }
         "open-child" => {
             open::owner_child(&argv[2..]);
             0
@@ -109,13 +113,13 @@ fn main() {
             let a = parse_args(&argv[2..]);
             let prop = a.rest.iter().position(|x| x == "--prop").and_then(|i| a.rest.get(i + 1)).cloned().unwrap_or_default();
             let res = match engine {
-                "seq" => seq::run(&a.tier, a.slice, a.seed),
+                "seq" => seq::run(&a.tier, a.slice, a.seed, &prop),
                 "crash" => crash::run(&a.tier, a.slice, a.seed),
                 "fault" => fault::run(&a.tier, a.slice, a.seed),
                 "input" => input::run(&a.tier, a.slice, a.seed, &prop),
                 "waldmg" => waldmg::run(&a.tier, a.slice, a.seed),
                 "plant" => plant::run(&a.tier, a.slice, a.seed),
-                "sched" => conc::run(&a.tier, a.slice, a.seed),
+                "sched" => conc::run(&a.tier, a.slice, a.seed, &prop),
                 "open" => open::run(&a.tier, a.slice, a.seed, &prop),
                 "power" => power::run(&a.tier, a.slice, a.seed),
                 _ => {
